@@ -1,6 +1,7 @@
 import VrpModel.ArcBased
 import VrpModel.SeqBased
 import VrpProofs.Props.C15
+import VrpProofs.Lemmas.Enum
 
 /-!
 # C18 — Variable index maps enumerate exactly the admissible decisions
@@ -16,5 +17,178 @@ theorem arc_tuple_none_of_ge (I : ArcInst) (k : ℕ) (h : I.numVars ≤ k) : I.v
 theorem seq_tuple_none_of_ge (I : SeqInst) (k : ℕ) (h : I.vars.length ≤ k) : I.varTuple k = none := by
   simp only [SeqInst.varTuple] at *
   exact List.getElem?_eq_none h
+
+
+/-! ## statements to prove (replace every `sorry`) -/
+
+/-- `add_time_points` sorts: the result is ordered and a permutation of the input (any input order) -/
+theorem sortRat_sorted_perm (l : List ℚ) : (sortRat l).Pairwise (· ≤ ·) ∧ (sortRat l).Perm l := by
+  unfold sortRat
+  induction l with
+  | nil => simp
+  | cons x xs ih =>
+    simp only [List.foldr_cons]
+    exact ⟨insertSorted_sorted x _ ih.1, (insertSorted_perm x _).trans (List.Perm.cons x ih.2)⟩
+
+/-- on a sorted grid the `continue`/`break` scan selects exactly the grid points inside the window -/
+theorem winLoop_sorted (T : List ℚ) (lo : ℚ) (hi : ERat) (hT : T.Pairwise (· ≤ ·)) :
+    winLoop T lo hi = T.filter (fun s => decide (lo ≤ s) && leE s hi) := by
+  exact winLoop_eq_filter T lo hi hT
+
+/-- **arc-based: the enumerated tuples are exactly the admissible decisions** (existing arc, both times on
+    the grid and inside the respective windows, departure + travel ≤ arrival) -/
+theorem arc_vars_mem_iff_admissible (I : ArcInst) (hT : I.T.Pairwise (· ≤ ·)) (hg : C15.Inv I.g) (u : ATup) :
+    u ∈ I.vars ↔ I.admissible u = true := by
+  obtain ⟨i, s, j, t⟩ := u
+  simp only [ArcInst.vars, List.mem_flatMap, List.mem_filterMap, winLoop_sorted _ _ _ hT, List.mem_filter,
+    Bool.and_eq_true, decide_eq_true_eq]
+  constructor
+  · rintro ⟨⟨⟨i', j'⟩, a⟩, he, s', ⟨hs1, hs2, hs3⟩, t', ⟨ht1, ht2, ht3⟩, h⟩
+    split_ifs at h with hlt
+    simp only [Option.some.injEq, Prod.mk.injEq] at h
+    obtain ⟨rfl, rfl, rfl, rfl⟩ := h
+    have harc : I.g.arc? i' j' = some a := (dictGet_eq_some_iff _ hg.keysNodup _ _).2 he
+    simp only [ArcInst.admissible, harc]
+    simp [hs1, hs2, hs3, ht1, ht2, ht3, not_lt.1 hlt]
+  · intro h
+    unfold ArcInst.admissible at h
+    simp only at h
+    cases harc : I.g.arc? i j with
+    | none => simp [harc] at h
+    | some a =>
+      simp only [harc, Bool.and_eq_true, decide_eq_true_eq] at h
+      obtain ⟨⟨⟨⟨⟨⟨hs1, ht1⟩, hs2⟩, hs3⟩, ht2⟩, ht3⟩, hle⟩ := h
+      have he : ((i, j), a) ∈ I.g.arcs := (dictGet_eq_some_iff _ hg.keysNodup _ _).1 harc
+      exact ⟨((i, j), a), he, s, ⟨hs1, hs2, hs3⟩, t, ⟨ht1, ht2, ht3⟩, by simp [not_lt.2 hle]⟩
+
+set_option linter.unusedVariables false in
+/-- no tuple is enumerated twice (grid without duplicate values; sortedness `hT` is not needed for this) -/
+theorem arc_vars_nodup (I : ArcInst) (hT : I.T.Pairwise (· ≤ ·)) (hTn : I.T.Nodup) (hg : C15.Inv I.g) :
+    I.vars.Nodup := by
+  unfold ArcInst.vars
+  rw [List.nodup_flatMap]
+  constructor
+  · intro e _
+    rw [List.nodup_flatMap]
+    constructor
+    · intro s _
+      refine List.Nodup.filterMap ?_ (winLoop_nodup _ _ _ hTn)
+      intro t t' b hb hb'
+      simp only [Option.mem_def] at hb hb'
+      split_ifs at hb hb'
+      simp only [Option.some.injEq] at hb hb'
+      rw [← hb'] at hb
+      simp only [Prod.mk.injEq] at hb
+      exact hb.2.2.2
+    · refine List.Pairwise.imp ?_ (winLoop_nodup _ _ _ hTn)
+      intro s s' hne u hu hu'
+      simp only [List.mem_filterMap] at hu hu'
+      obtain ⟨t, _, h⟩ := hu
+      obtain ⟨t', _, h'⟩ := hu'
+      split_ifs at h h'
+      simp only [Option.some.injEq] at h h'
+      rw [← h'] at h
+      simp only [Prod.mk.injEq] at h
+      exact hne h.2.1
+  · refine List.Pairwise.imp ?_ (List.pairwise_map.1 hg.keysNodup)
+    intro e e' hne u hu hu'
+    simp only [List.mem_flatMap, List.mem_filterMap] at hu hu'
+    obtain ⟨s, _, t, _, h⟩ := hu
+    obtain ⟨s', _, t', _, h'⟩ := hu'
+    split_ifs at h h'
+    simp only [Option.some.injEq] at h h'
+    rw [← h'] at h
+    simp only [Prod.mk.injEq] at h
+    exact hne (Prod.ext h.1 h.2.2.1)
+
+/-- index → tuple and tuple → index lookups are mutual inverses -/
+theorem arc_index_tuple_inverse (I : ArcInst) (hT : I.T.Pairwise (· ≤ ·)) (hTn : I.T.Nodup) (hg : C15.Inv I.g)
+    (u : ATup) (k : ℕ) : I.varIndex u = some k ↔ I.varTuple k = some u := by
+  exact idxOf_lookup_some_iff I.vars (arc_vars_nodup I hT hTn hg) u k
+
+/-- inadmissible tuples map to nothing, admissible ones to an index below `n` -/
+theorem arc_index_none_iff (I : ArcInst) (hT : I.T.Pairwise (· ≤ ·)) (hg : C15.Inv I.g) (u : ATup) :
+    I.varIndex u = none ↔ I.admissible u = false := by
+  have h1 : I.varIndex u = none ↔ u ∉ I.vars := idxOf_lookup_none_iff I.vars u
+  rw [h1, arc_vars_mem_iff_admissible I hT hg u]
+  simp
+
+theorem arc_index_lt (I : ArcInst) (u : ATup) (k : ℕ) (h : I.varIndex u = some k) : k < I.numVars := by
+  exact idxOf_lookup_lt I.vars u k h
+
+/-- the six fixing rules say exactly: first and last position are fixed (start / end at the depot), position 1
+    must be reachable from the depot, position `L−2` must be able to return to it -/
+theorem seq_fixed_none_iff (I : SeqInst) (p n : ℕ) :
+    I.fixed p n = none ↔ (p ≠ 0 ∧ p ≠ I.L - 1 ∧ (p = 1 → I.g.hasArc 0 n = true) ∧ (p = I.L - 2 → I.g.hasArc n 0 = true)) := by
+  unfold SeqInst.fixed
+  split_ifs <;> simp_all
+
+/-- **sequence-based: the enumerated tuples are exactly the (vehicle, position, node) in range that no rule fixes** -/
+theorem seq_vars_mem_iff (I : SeqInst) (u : STup) :
+    u ∈ I.vars ↔ (u.1 < I.V ∧ u.2.1 < I.L ∧ u.2.2 < I.g.nodes.length ∧ I.fixed u.2.1 u.2.2 = none) := by
+  obtain ⟨v, p, n⟩ := u
+  simp only [SeqInst.vars, List.mem_flatMap, List.mem_range]
+  constructor
+  · rintro ⟨p', hp', n', hn', h⟩
+    split_ifs at h with hf
+    · simp at h
+    · simp only [List.mem_map, List.mem_range, Prod.mk.injEq] at h
+      obtain ⟨v', hv', rfl, rfl, rfl⟩ := h
+      exact ⟨hv', hp', hn', by simpa using hf⟩
+  · rintro ⟨hv, hp, hn, hf⟩
+    refine ⟨p, hp, n, hn, ?_⟩
+    simp [hf, hv]
+
+theorem seq_vars_nodup (I : SeqInst) : I.vars.Nodup := by
+  unfold SeqInst.vars
+  rw [List.nodup_flatMap]
+  constructor
+  · intro p _
+    rw [List.nodup_flatMap]
+    constructor
+    · intro n _
+      split_ifs
+      · exact List.nodup_nil
+      · exact List.Nodup.map (fun v v' h => by simpa using h) List.nodup_range
+    · refine List.Pairwise.imp ?_ (List.nodup_range (n := I.g.nodes.length))
+      intro n n' hne u hu hu'
+      beta_reduce at hu hu'
+      split_ifs at hu hu' <;> simp only [List.mem_map, List.not_mem_nil] at hu hu'
+      obtain ⟨v, _, h⟩ := hu
+      obtain ⟨v', _, h'⟩ := hu'
+      rw [← h'] at h
+      simp only [Prod.mk.injEq] at h
+      exact hne h.2.2
+  · refine List.Pairwise.imp ?_ (List.nodup_range (n := I.L))
+    intro p p' hne u hu hu'
+    simp only [List.mem_flatMap] at hu hu'
+    obtain ⟨n, _, hu⟩ := hu
+    obtain ⟨n', _, hu'⟩ := hu'
+    split_ifs at hu hu' <;> simp only [List.mem_map, List.not_mem_nil] at hu hu'
+    obtain ⟨v, _, h⟩ := hu
+    obtain ⟨v', _, h'⟩ := hu'
+    rw [← h'] at h
+    simp only [Prod.mk.injEq] at h
+    exact hne h.2.1
+
+theorem seq_index_tuple_inverse (I : SeqInst) (u : STup) (k : ℕ) :
+    I.varIndex u = some k ↔ I.varTuple k = some u := by
+  exact idxOf_lookup_some_iff I.vars (seq_vars_nodup I) u k
+
+theorem seq_index_none_iff (I : SeqInst) (u : STup) :
+    I.varIndex u = none ↔ ¬ (u.1 < I.V ∧ u.2.1 < I.L ∧ u.2.2 < I.g.nodes.length ∧ I.fixed u.2.1 u.2.2 = none) := by
+  have h1 : I.varIndex u = none ↔ u ∉ I.vars := idxOf_lookup_none_iff I.vars u
+  rw [h1, seq_vars_mem_iff I u]
+
+theorem seq_index_lt (I : SeqInst) (u : STup) (k : ℕ) (h : I.varIndex u = some k) : k < I.vars.length := by
+  exact idxOf_lookup_lt I.vars u k h
+
+/-- non-vacuity: `examples/small.py` arc-based instance has the admissible tuple (D,0) → (1,1) -/
+example :
+    let g : Graph := { nodes := [⟨"D", 0, 0, none⟩, ⟨"1", 1, 1, some 7⟩],
+                       arcs := [((0, 1), ⟨"D", "1", 1, 1⟩), ((1, 0), ⟨"1", "D", 1, 1⟩)] }
+    let I : ArcInst := ({ g := g, T := [] } : ArcInst).addTimePoints [7, 0, 4, 1, 2]
+    I.varIndex (0, 0, 1, 1) = some 0 ∧ I.admissible (0, 0, 1, 1) = true ∧ I.varIndex (0, 0, 1, 0) = none := by
+  refine ⟨by decide +kernel, by decide +kernel, by decide +kernel⟩
 
 end Vrp.C18
